@@ -24,6 +24,7 @@ import (
 	"encoding/json"
 	"fmt"
 	"sort"
+	"sync"
 	"time"
 
 	digest "github.com/opencontainers/go-digest"
@@ -81,7 +82,6 @@ type jTOC struct {
 	Version int       `json:"version"`
 	Entries []*jEntry `json:"entries"`
 }
-
 
 func sha(b []byte) string {
 	s := sha256.Sum256(b)
@@ -143,11 +143,27 @@ func (e *hEntry) chunkSizes() []int64 {
 	return e.Chunks
 }
 
+// one gzip.Writer per level, reused: a fresh one allocates ~1 MiB of state, which under
+// the race detector made assembling a blob of a few dozen members take seconds
+var (
+	gzMu sync.Mutex
+	gzWs = map[int]*gzip.Writer{}
+)
+
 func gzMember(p []byte, level int) []byte {
+	gzMu.Lock()
+	defer gzMu.Unlock()
 	var b bytes.Buffer
-	zw, err := gzip.NewWriterLevel(&b, level)
-	if err != nil {
-		panic(err)
+	zw := gzWs[level]
+	if zw == nil {
+		var err error
+		zw, err = gzip.NewWriterLevel(&b, level)
+		if err != nil {
+			panic(err)
+		}
+		gzWs[level] = zw
+	} else {
+		zw.Reset(&b)
 	}
 	if _, err := zw.Write(p); err != nil {
 		panic(err)
